@@ -417,6 +417,10 @@ class Interp(object):
             if isinstance(other, Term) and other.op == "maybe-none":
                 return self.path.choose("is-none %r" % other)
             return False
+        if isinstance(l, AStruct) and l.kind == "NotImplemented":
+            l = NotImplemented
+        if isinstance(r, AStruct) and r.kind == "NotImplemented":
+            r = NotImplemented
         if l is NotImplemented or r is NotImplemented:
             return l is r
         if isinstance(l, Term) and isinstance(r, Term):
